@@ -1560,3 +1560,51 @@ pub fn c12(scn: &Scenario, tr: &[Ev]) -> Vec<Violation> {
 fn deadlock_panicked_op(ix: &Ix, o: &OpRec) -> bool {
     deadlock_panicked(ix, o)
 }
+
+// ------------------------------------------------------------------ C19 (runtime half): on_tell_result
+
+pub fn c19rt(scn: &Scenario, tr: &[Ev]) -> Vec<Violation> {
+    let ix = Ix::new(scn, tr);
+    let mut out = Vec::new();
+    for o in ix.ops.iter() {
+        let (Some(k), Some(a), Some(m)) = (o.send_kind(), o.target, o.msg) else { continue };
+        let Some(spec) = ix.msg_spec(m) else { continue };
+        if !matches!(spec.kind, MsgKind::M1 | MsgKind::MR) {
+            continue;
+        }
+        let ax = &ix.actors[a];
+        let results: Vec<(usize, &String)> = tr.iter().enumerate().filter_map(|(i, e)| match &e.k {
+            EvK::TellResult { actor, msg, val } if *actor == a && *msg == m => Some((i, val)),
+            _ => None,
+        }).collect();
+        let exit = ax.handler_exit.get(&m);
+        let finished_normally = exit.map(|(_, s)| !s.starts_with("Panic")).unwrap_or(false);
+        if k.is_ask() {
+            premise();
+            if !results.is_empty() {
+                v(&mut out, "C19 on_tell_result never after an ask", format!("actor {a}: message {m} was sent with {k:?} but on_tell_result ran ({} time(s))", results.len()));
+            }
+        } else if finished_normally {
+            premise();
+            if results.len() != 1 {
+                v(&mut out, "C19 on_tell_result exactly once after a tell", format!("actor {a}: message {m} (tell) was handled but on_tell_result ran {} times", results.len()));
+            } else {
+                let (i, val) = results[0];
+                let (x, s) = exit.unwrap();
+                let want = match spec.kind {
+                    MsgKind::M1 => s.rsplit('#').next().unwrap_or("").to_string(),
+                    _ => match spec.out {
+                        Outcome::Err(t) => format!("Err(\"{m}:{t}:{a}\")"),
+                        _ => format!("Ok({m})"),
+                    },
+                };
+                if *val != want || i < *x {
+                    v(&mut out, "C19 on_tell_result gets the handler's value", format!("actor {a}: message {m}: on_tell_result saw {val:?}, the handler returned {want:?}"));
+                }
+            }
+        } else if !results.is_empty() {
+            v(&mut out, "C19 on_tell_result only after the handler", format!("actor {a}: message {m}: on_tell_result ran although the handler did not return"));
+        }
+    }
+    out
+}
